@@ -638,14 +638,14 @@ def evaluate_tree(cfg, sim, out, where, want_model, step):
         out.inc("tree_invariant_failures")
         return
     if want_model and cfg["gravity"] == "tree" and 2 <= len(parts) <= 160:
-        check_walk(cfg, sim, parts, out, where, step)
+        check_walk(cfg, sim, parts, out, where, step, face_tie(cells, parts))
     if want_model and not any(f18_class(cfg, p) for p in parts):
         out.lines.append((model_line(cfg, parts, True), dump_str(cells),
                           dict(where=where, step=step, N=len(parts), tie=face_tie(cells, parts),
                                box=[cfg["rs"], cfg["nx"], cfg["ny"], cfg["nz"]], boundary=cfg["boundary"])))
 
 
-def check_walk(cfg, sim, parts, out, where, step):
+def check_walk(cfg, sim, parts, out, where, step, tie=False):
     """the tree walk of the real gravity routine with opening angle 0 must see every other particle exactly once:
     accelerations = brute-force pair sum (fsum), no ghost boxes"""
     n = len(parts)
@@ -657,7 +657,12 @@ def check_walk(cfg, sim, parts, out, where, step):
     if _lib.c15_acc(ctypes.byref(sim), A, n + 1) != n:
         return
     # ---- tie of the force walk itself: the run's own opening angle (monopoles of unopened cells included), bitwise
-    if sim.N_ghost_x == 0 and sim.N_ghost_y == 0 and sim.N_ghost_z == 0 and not any(f18_class(cfg, p) for p in parts):
+    # (a particle exactly on a face of its leaf cell may legitimately sit in a differently refined, incrementally maintained
+    #  tree than the fresh build the model makes — same exception as for the shape comparison; the theta=0 oracle below
+    #  still applies to it)
+    if tie:
+        out.inc("force_tie_skipped_particle_on_cell_face")
+    if not tie and sim.N_ghost_x == 0 and sim.N_ghost_y == 0 and sim.N_ghost_z == 0 and not any(f18_class(cfg, p) for p in parts):
         _clib.reb_calculate_acceleration(ctypes.byref(sim))
         B = (ctypes.c_double * (3 * n + 3))()
         if _lib.c15_acc(ctypes.byref(sim), B, n + 1) == n:
